@@ -6,7 +6,7 @@ set -e
 ID="$1"; shift
 S=/verif/seeded/$ID
 PROPS=$(python3 -c "import json;m=json.load(open('$S/meta.json'));print(' '.join(m.get('checks') or [m['property']]))")
-W=/tmp/pv-seed-$ID
+W=/tmp/pv-seed-$ID-$$
 git -C /repo worktree remove --force $W 2>/dev/null || true
 rm -rf $W $W-lean $W-out
 git -C /repo worktree add -q --detach $W HEAD
